@@ -308,7 +308,7 @@ def execute(ctx, c):
 
 def write_and_reload(ctx, c, cls_name, cls, k, ref):
     pw = c["pass"]
-    d = ctx.tmpdir()
+    d = K.fast_tmpdir(ctx)
     path = os.path.join(d, "key-%d" % ctx.evaluations)
     if os.path.exists(path):
         os.unlink(path)
